@@ -220,7 +220,12 @@ namespace xsimd
         {
             if (std::is_signed<T>::value)
             {
-                return sadd(self, -other);
+                // clamp self into [min + other, max + other] (the side is chosen by the sign
+                // of other so that the bound itself cannot overflow), then subtract.
+                // Not sadd(self, -other): -other overflows for other == min.
+                auto other_pos_branch = max(std::numeric_limits<T>::min() + other, self);
+                auto other_neg_branch = min(std::numeric_limits<T>::max() + other, self);
+                return select(other < batch<T, A>(T(0)), other_neg_branch, other_pos_branch) - other;
             }
             else
             {
